@@ -211,12 +211,53 @@ def main(tier: str) -> int:
             chk.fail("re-fitting the same estimator object with the same random_state gives a different model",
                      {"estimator": name, "same_tree": refit[0] == res[0][0], "same_net": refit[1] == res[0][1], "same_predictions": refit[2] == res[0][2]},
                      {"target": name, "clause": "same_seed_refit"})
+        # "every seed": the falsy seed 0
+        res0 = []
+        for rep in range(2):
+            perturb(70 + rep * 17 + len(name))
+            e0 = make().set_params(random_state=0)
+            e0.fit(X, y)
+            res0.append((str(e0.get_tree()) if hasattr(e0, "tree_") else None,
+                         None if not hasattr(e0, "net_") else (e0.get_net()._connects.tolist(), [float(w) for w in e0.get_net()._weights]),
+                         [str(v) for v in e0.predict(X)]))
+        if res0[0] != res0[1]:
+            chk.fail("fitting an estimator twice with random_state=0 gives different models",
+                     {"estimator": name, "random_state": 0, "same_tree": res0[0][0] == res0[1][0], "same_net": res0[0][1] == res0[1][1]},
+                     {"target": name, "clause": "same_seed_zero"})
         chk.count(name)
         chk.case((name, "twice"))
         if res[0] != res[1]:
             chk.fail("fitting an estimator twice with the same random_state gives different models",
                      {"estimator": name, "same_tree": res[0][0] == res[1][0], "same_net": res[0][1] == res[1][1], "same_predictions": res[0][2] == res[1][2]},
                      {"target": name, "clause": "same_seed"})
+    # ---- GP with the protected functions that mask part of their argument (logabs, div, sqrtabs, exp): exact zeros in a
+    #      feature column, >= 128 samples (large buffers come from the allocator un-initialised), different heap histories
+    from thefittest.regressors import GeneticProgrammingRegressor
+    rs_h = np.random.RandomState(chk.seed + 3)
+    Xh = np.column_stack([rs_h.randint(0, 3, size=192).astype(np.float64), rs_h.uniform(-2, 2, size=192), np.zeros(192)])
+    yh = Xh[:, 0] * 2.0 + np.abs(Xh[:, 1])
+    for fs in (("add", "mul", "logabs"), ("sub", "div", "sqrtabs", "logabs"), ("add", "exp", "logabs", "abs")):
+        runs_h = []
+        try:
+            for rep in range(3):
+                perturb(300 + rep)
+                junk = [np.random.RandomState(rep * 7 + k).uniform(-1e6, 1e6, size=192) for k in range(40 + 30 * rep)]   # fills and frees heap blocks
+                junk = [j_ * (rep + 1.5) for j_ in junk]
+                del junk
+                eh = GeneticProgrammingRegressor(n_iter=4, pop_size=12, functional_set_names=fs, optimizer_args={"keep_history": True}, random_state=chk.seed + 9)
+                eh.fit(Xh, yh)
+                st_h = eh.get_stats()
+                runs_h.append(([[float(v) for v in f] for f in st_h["fitness"]], str(eh.get_tree())))
+        except Exception as e:  # noqa
+            chk.fail("a GP estimator over a functional set with protected functions raises", {"functional_set": list(fs), "error": repr(e)[:200]}, {"target": "GPRegressor", "clause": "raises"})
+            continue
+        chk.count("gp_protected_functions")
+        chk.case(("gp_protected", fs))
+        if any(r != runs_h[0] for r in runs_h[1:]):
+            gen = next((g for r in runs_h[1:] for g, (a, b) in enumerate(zip(runs_h[0][0], r[0])) if a != b and not (np.isnan(a).all() and np.isnan(b).all())), None)
+            chk.fail("two fits with identical arguments and seed differ (functional set with protected functions, exact zeros in the data, different heap histories)",
+                     {"estimator": "GeneticProgrammingRegressor", "functional_set": list(fs), "samples": 192, "first_differing_generation": gen},
+                     {"target": "GPRegressor", "clause": "same_seed_heap"})
     chk.notes.append("10 optimizers x 2 configurations and 6 estimators, each run twice under perturbation of all four generators with another optimizer run in between; int seed vs RandomState object; different seed")
     chk.trusted.append("equality of two executions of JIT-compiled numeric code is observed, not proved; n_jobs>1 with a stochastic genotype_to_phenotype is outside the property's quantifier")
     chk.assumptions.append("the Mersenne Twister / samplers are parameters of the model (only 'same state in, same numbers out' is used)")
